@@ -20,9 +20,10 @@ def tok_params(draw, maxmax=8, init="any"):
     init_max_silence arbitrary (irrelevant there)."""
     mx = draw(st.integers(1, maxmax))
     if maxmax >= 8 and draw(rarely(15)):
-        mx = draw(st.integers(250, 300))  # lengths above CPython's small-int cache
-    mn = draw(st.integers(1, mx))
-    sil = draw(st.integers(-1, mx - 1))
+        # lengths above CPython's small-int cache, around powers of two
+        mx = draw(st.one_of(st.integers(250, 300), st.sampled_from([255, 256, 257, 511, 512, 513, 1023, 1024, 1025])))
+    mn = draw(st.integers(1, mx)) if mx <= 64 else draw(st.one_of(st.integers(1, 8), st.integers(1, mx), st.sampled_from([mx - 1, mx, 255, 256, 257]).filter(lambda v: 1 <= v <= mx)))
+    sil = draw(st.integers(-1, mx - 1)) if mx <= 64 else draw(st.one_of(st.integers(-1, 6), st.integers(-1, mx - 1), st.sampled_from([mx - 1, 255, 256, 257]).filter(lambda v: v < mx)))
     if init == "default":
         imin = draw(st.sampled_from([v for v in (-1, 0, 1) if v < mx]))
         isil = draw(st.integers(-1, 3))
@@ -44,6 +45,11 @@ def pattern(draw, p, maxlen=64):
     mn, mx, sil, imin, isil, _mode = p
     ms = max(sil, 0)
     how = draw(st.integers(0, 9))
+    if maxlen >= 64 and draw(rarely(40)):
+        # a long stream (thousands of frames, hundreds of tokens): a drawn motif repeated
+        motif = draw(st.text(alphabet="01", min_size=1, max_size=3 * min(mx, 12) + 6))
+        total = draw(st.sampled_from([1000, 2048, 4097, 5000]))
+        return (motif * (total // len(motif) + 1))[:total]
     if how <= 6:
         vruns = _clip([1, 2, mn - 1, mn, mn + 1, mx - 1, mx, mx + 1, 2 * mx, 2 * mx + 1, imin, imin - 1], hi=max(400, 2 * mx + 2))
         iruns = _clip([1, 2, ms, ms + 1, ms + 2, max(isil, 0), max(isil, 0) + 1, mx, mx + ms + 1], hi=max(400, 2 * mx + 2))
@@ -83,6 +89,18 @@ def tok_case(draw, maxmax=8, maxlen=64, init="any", kinds=("obj", "char", "bytes
         "kind": draw(st.sampled_from(kinds)),
         "deliv": draw(st.sampled_from(delivs)),
     }
+    if draw(rarely(12)):
+        # positional coincidence across uses: the earlier stream ends exactly on a cut at frame k-1,
+        # the later one has its first (short) activity starting exactly at frame k
+        mn, mx = p[0], p[1]
+        if mx <= 64:
+            lead = draw(st.integers(0, 3))
+            j = draw(st.integers(1, 3))
+            k = lead + mx * j
+            burst = draw(st.integers(1, max(mn - 1, 1)))
+            case["pat"] = "0" * k + "1" * burst + "0" * draw(st.integers(0, mx + 2)) + draw(pattern(p, 12))
+            case["pre"] = {"pat": "0" * lead + "1" * (mx * j), "how": draw(st.sampled_from(["list", ["gen", 9], ["two_gens"]]))}
+            return case
     if draw(st.integers(0, 3)) == 0:  # the tokenizer has been used before
         case["pre"] = {
             "pat": draw(pattern(p, 24)),
